@@ -584,8 +584,16 @@ func (a *AggregatePlan) convertToBytes(val any) ([]byte, error) {
 	case float32:
 		// The shortest text that reads back as the same number: a fixed
 		// number of decimals would put different values into one group
+		if value == 0 {
+			// -0 is equal to 0
+			value = 0
+		}
 		return strconv.AppendFloat(nil, float64(value), 'f', -1, 32), nil
 	case float64:
+		if value == 0 {
+			// -0 is equal to 0
+			value = 0
+		}
 		return strconv.AppendFloat(nil, value, 'f', -1, 64), nil
 	default:
 		if val == nil {
